@@ -252,6 +252,9 @@ impl H {
     fn j(&self) -> String {
         jhash(self.k, &self.a, &self.b)
     }
+    pub fn j_pub(&self) -> String {
+        self.j()
+    }
 }
 fn rel(k1: u8, k2: u8) -> i32 {
     (k1 as i32) - (k2 as i32)
